@@ -268,7 +268,7 @@ pub fn run(tier: Tier, seed: u64) -> i32 {
                 // every position twice: once as a hard error, once as the retryable "interrupted" condition
                 let (k, intr) = (kk / 2, kk % 2 == 1);
                 let mut ops: Vec<Op> = c.ops[..i].to_vec();
-                ops.push(Op::FaultNext { k, hold: 1, interrupted: intr });
+                ops.push(Op::FaultNext { k, hold: 1, interrupted: intr, burst: 0 });
                 ops.push(c.ops[i].clone());
                 ops.push(c.ops[i].clone());
                 ops.extend_from_slice(&c.ops[i + 1..]);
